@@ -1,4 +1,5 @@
 """API-probe plane: run libxcp through the probe binary with a chosen StatusUpdater and collect the update stream."""
+from .common import rmtree as _rmtree
 import json, os, shutil, subprocess, time
 from . import fsmat, nsplane
 from .common import scratch
@@ -6,7 +7,7 @@ from .common import scratch
 def run_copy(probe, sc, driver, updater, cfg, run_id, env=None, timeout=60, strace_inject=None, keep=False, measure=False):
     """sc: name-space scenario (sources / dest as args).  Returns dict(stream=[...], end={...}|None, timed_out, rc, before, after)."""
     root = os.path.join(scratch(), "pr-%s" % run_id)
-    shutil.rmtree(root, ignore_errors=True)
+    _rmtree(root)
     os.makedirs(root)
     names = fsmat.Names()
     contents = fsmat.materialise(root, nsplane.mat_entries(sc), names)
@@ -70,5 +71,5 @@ def run_copy(probe, sc, driver, updater, cfg, run_id, env=None, timeout=60, stra
     res = {"transferred": transferred,"stream": stream, "end": end, "timed_out": timed_out, "rc": p.returncode, "wall": wall, "stderr": err.decode(errors="replace")[-400:],
            "before": before, "after": after, "root": root}
     if not keep:
-        shutil.rmtree(root, ignore_errors=True)
+        _rmtree(root)
     return res
